@@ -29,7 +29,7 @@ RULE = ('cases = exhaustive enumerations (user-information sub-item adjacency ma
 ASSUMPTIONS = ['values are built through the public constructors of pdu.py/userdataitems.py',
                'text fields are ASCII, AE titles carry no leading/trailing space or NUL',
                'fixed-length sub-items keep their standard item_length (4)']
-REQUIRED = ['oracle.roundtrip', 'oracle.reencode', 'oracle.item-stream']
+REQUIRED = ['oracle.roundtrip', 'oracle.reencode', 'oracle.item-stream', 'oracle.decode-is-pure']
 
 N_RANDOM = {'quick': 4000, 'thorough': 1500000}
 SHARDS = {'quick': 8, 'thorough': 16}
@@ -118,6 +118,43 @@ def check_case(res, desc, tree):
     # nested items, each alone on a stream followed by sentinel bytes
     for path, obj in nested(x):
         item_stream_check(res, desc, path, obj)
+    # decoding is a function of the bytes alone: what an application does to an object it got
+    # from an earlier decode of the same bytes (the acceptor itself rewrites the maximum length of
+    # a decoded request) must not show in a later decode
+    res.count('oracle.decode-is-pure')
+    try:
+        scribble(y)
+        y2 = cls.decode(b)
+        diff = libmap.deep_equal(x, y2)
+    except Exception as exc:
+        diff = 'raised %r' % (exc,)
+    if diff:
+        res.violation('decode-depends-on-earlier-decodes', 'C01.roundtrip',
+                      '%s: second decode of the same bytes, after the first result was modified, '
+                      'differs from x: %s' % (cls.__name__, diff), desc)
+
+
+def scribble(obj, depth=0):
+    """Change every field of a decoded PDU object in place (recursively)."""
+    if depth > 6 or obj is None:
+        return
+    for name, value in list(vars(obj).items()) if hasattr(obj, '__dict__') else []:
+        if isinstance(value, bool):
+            continue
+        if isinstance(value, int):
+            setattr(obj, name, (value + 1) % 200)
+        elif isinstance(value, (bytes, bytearray)):
+            setattr(obj, name, bytes(value) + b'~')
+        elif isinstance(value, str):
+            setattr(obj, name, value + '~')
+        elif isinstance(value, list):
+            for item in value:
+                if hasattr(item, '__dict__'):
+                    scribble(item, depth + 1)
+            if value:
+                value.append(value[-1])
+        elif hasattr(value, '__dict__'):
+            scribble(value, depth + 1)
 
 
 SENTINEL = b'\x50\x51\x52\x53\x00\x10\x20\x21'
